@@ -24,13 +24,13 @@ def scenarios(tier):
     if q:
         out = [Scenario("c15-programs", World, cfg, program + hooks[:1] + ends, max_states=cap,
                         note="programs ending inside/outside an episode with deferred codes, Z changes, owed recoveries"),
-               Scenario("c15-hook-sequences", World, cfg,
+               Scenario("c15-hook-sequences", World, dict(cfg, enter="M300 S1\n"),
                         [("TRAVEL", "I1"), ("TRAVEL", "O2"), ("PRINT", "I2"), ("RAW", "M117 x"), ("RAW", "G28 X")]
                         + hooks + ends, max_states=cap,
                         note="all sequences of script-hook invocations (near-miss script names, other types), a partial "
                              "homing inside the episode, end events")]
     else:
-        out = [Scenario("c15-print-end", World, cfg, program + [("RAW", "G28 X"), ("TRAVELZ", "I1", 2),
+        out = [Scenario("c15-print-end", World, dict(cfg, enter="M300 S1\n"), program + [("RAW", "G28 X"), ("TRAVELZ", "I1", 2),
                                                                  ("AT", "ExcludeRegion", "disable"), ("EV", "PRINT_PAUSED"),
                                                                  ("SCRIPT", "gcode", "afterPrintResumed")] + hooks + ends,
                         max_states=cap)]
